@@ -51,6 +51,13 @@ pub fn authentic(kt: KeyType, input: &[u8], s: &crate::exec::Snap, st: &mut Stat
     if sig_in.as_deref() != Some(&s.sig[..]) {
         return Err(format!("[{kt:?}] signature() differs from the signature field of the input"));
     }
+    // (i') every accepted byte is covered: the record re-encodes to exactly the item it was read from
+    // (an accepted input that is normalised on the way in carries bytes the signature does not bind)
+    if let Ok((_, hl, pl)) = rlp::header_at(input) {
+        if s.enc[..] != input[..(hl + pl).min(input.len())] {
+            return Err(format!("[{kt:?}] an accepted input is not the record the signature covers: the decoded record re-encodes to different bytes (altered record accepted)"));
+        }
+    }
     // (ii) valid v4 signature under the key in the record's own pairs, over exactly what it reports
     let (scheme, pk) = key_for(kt, &s.pairs).ok_or_else(|| format!("[{kt:?}] accepted record carries no public key entry of its type"))?;
     if pk.len() == 65 {
